@@ -268,6 +268,18 @@ def exec (st : State) (toks : List String) : State × List String :=
   | ["crdt.state", r] =>
     let pend := match st.txs.find? (fun p => p.1 == r) with | some (_, t) => t.pending | none => []
     (st, [showDoc ((getReplica st r).ops ++ pend)])
+  | ["crdt.changes", r, hs] =>
+    match unhxList hs with
+    | some have_ =>
+      let d := getReplica st r
+      let anc := d.ancestors have_
+      (st, [s!"ok {showHashes (sortHashes ((d.applied.filter (fun c => !anc.contains c.hash)).map (·.hash)))}"])
+    | none => (st, ["bad-input"])
+  | ["crdt.saveload", r, r2, _deflate] =>
+    let d := getReplica st r
+    match st.actors.find? (fun p => p.1 == r) with
+    | some (_, a) => (setReplica { st with actors := (r2, a) :: st.actors.filter (fun p => p.1 != r2) } r2 d, [s!"ok {summary d}"])
+    | none => (st, ["bad-input"])
   | ["crdt.state_at", r, hs] =>
     match unhxList hs with
     | some heads => (st, [showDoc ((getReplica st r).at heads).ops])
